@@ -685,7 +685,9 @@ func (s *Service) serve(nc Conn) error {
 	}
 	s.workbuf = make([]*work, s.inChannelSize)
 	s.workqueue = s.workbuf[:0]
+	verifGate("serve.init")
 	s.rwork = make(map[string]*work, s.inChannelSize)
+	verifNote("sv.init", "", s.workerCount)
 	s.queryTQ = timerqueue.New(s.queryEventExpire, s.queryDuration)
 
 	// Start workers
